@@ -13,6 +13,27 @@ E2 = "explicit-state search over operation histories of the real objects against
 E3 = "bounded-exhaustive input/configuration enumeration against a reference model (depth-1 model checking)"
 
 CHECKS = {
+    "C03": dict(
+        engine="E3-enum",
+        category="exploration",
+        technique=E3,
+        text="For each of the 45 CODE_API_MAP constructors a written domain description; the full product of in-domain argument lists (complete 0.01 "
+        "sweeps of temperature/setpoint args, all 256 OpenTherm ids, all fragment n/total pairs, bind code lists x idx, mode x until x duration) and "
+        "per-argument out-of-domain values are built, decoded with Message._from_cmd and compared key-by-key with what was passed. Whole small domains, not samples.",
+        design_ref="4/C03",
+        note="Domains come from the constructors' own range checks/docstrings and the wire format; decoded keys are matched by the constructor's argument "
+        "names (the convention of the repo's API tests). 23 genuine defects in rarely used constructors are listed in known_findings.json by (constructor, argument shape, clause).",
+    ),
+    "C04": dict(
+        engine="E3-enum",
+        category="exploration",
+        technique=E3,
+        text="Whole finite domains of every scalar codec: all 65,536 temperature words and all k/100, all 4-hex doubles at factors 1/10/100, all 256 "
+        "percent/flag bytes, every minute of 2 (thorough 12) years x DST x 12/14-hex, packed timestamps across 2000-2099, all 2^24 device ids; exact "
+        "inverse in both directions, sentinels preserved, out-of-range never wrapped.",
+        design_ref="4/C04",
+        note="Text grid = printable ASCII without leading/trailing blanks; date-time wire words with day-of-week bits are only checked in the encoder->decoder direction.",
+    ),
     "C07": dict(
         engine="E1-sched",
         category="model_checking",
